@@ -4,6 +4,12 @@ import sympy as sp
 from .alg import Pt, Sc, Unanalysable, Vec, eq, isym, show
 
 
+def eq_b(a, b, bounds):
+    from .alg import le
+
+    return eq(a, b) or (bounds is not None and le(a, b, bounds) and le(b, a, bounds))
+
+
 def total_len(ref_segs):
     return sp.expand(sum((sp.sympify(n) for _, n, _ in ref_segs), sp.Integer(0)))
 
@@ -15,7 +21,7 @@ def compare_scalars(ck, rule, actual, ref_segs, bounds, proportional=True, where
         ck.fail(rule, prefix + "shape", f"sink is not a vector: {actual!r}", where)
         return False
     ok_all = True
-    if not eq(actual.length(), total_len(ref_segs)):
+    if not eq_b(actual.length(), total_len(ref_segs), bounds):
         ck.fail(rule, prefix + "length", f"vector has length {actual.length()}, reference layout has {total_len(ref_segs)}", where)
         return False
     j = isym("_j")
@@ -64,7 +70,7 @@ def compare_scalars(ck, rule, actual, ref_segs, bounds, proportional=True, where
 
 def compare_bases(ck, rule, actual, ref_segs, bounds, where="", prefix=""):
     """base vector: every element must be the single base atom the layout names"""
-    if not eq(actual.length(), total_len(ref_segs)):
+    if not eq_b(actual.length(), total_len(ref_segs), bounds):
         ck.fail(rule, prefix + "length", f"base vector has length {actual.length()}, reference layout has {total_len(ref_segs)}", where)
         return False
     j = isym("_j")
